@@ -491,7 +491,8 @@ pub fn judge_graph(g: &Graph, ptrw: usize, emit: bool) -> (Vec<(String, String)>
                 bad.push((format!("C10/accepted/{kind}"), format!("build succeeded although {what}")));
             } else {
                 // everything declared must be resolved and present
-                let reg = ok.state.type_registry();
+                let state_guard = ok.state.lock().unwrap();
+                let reg = state_guard.type_registry();
                 for t in 0..g.ntypes {
                     let p = format!("{}::{}", mpath(g, g.module_of[t]), tname(t));
                     match reg.get(&ItemPath::from(p.as_str())) {
@@ -842,7 +843,8 @@ pub fn judge_bind(c: &BindCase) -> Vec<(String, String)> {
             if got_f.as_deref() != Some(want_ty.as_str()) {
                 bad.push(("C11/field-type-path".into(), format!("`{cpath}::T.f: {name}` must be `{want_ty}`, emitted {got_f:?}")));
             }
-            let tsize = ok.state.type_registry().get(&ItemPath::from(format!("{cpath}::T").as_str())).and_then(|i| i.size());
+            let state_guard = ok.state.lock().unwrap();
+            let tsize = state_guard.type_registry().get(&ItemPath::from(format!("{cpath}::T").as_str())).and_then(|i| i.size());
             if tsize != Some(want_size) {
                 bad.push(("C11/layout-uses-other-definition".into(), format!("`{cpath}::T` resolved to size {tsize:?}; `{name}` binds to `{want_ty}` of size {want_size}")));
             }
@@ -1084,7 +1086,8 @@ pub fn run_c11(ctx: &mut Ctx) {
                         let text = ok.files.get("kn_shadow.rs").cloned().unwrap_or_default();
                         let flat: String = text.split_whitespace().collect::<Vec<_>>().join(" ");
                         // layout uses the built-in sizes: a, b one byte each, c at 2
-                        let size = ok.state.type_registry().get(&ItemPath::from("kn_shadow::Flags")).and_then(|i| i.size());
+                        let state_guard = ok.state.lock().unwrap();
+                        let size = state_guard.type_registry().get(&ItemPath::from("kn_shadow::Flags")).and_then(|i| i.size());
                         let want_size = match kind {
                             "type" => Some(4),
                             _ => Some(8),
